@@ -10,10 +10,21 @@ class MatrixOfCellIdentifiersExpressionTokenTranslator(AbstractTranslator):
         from excel2pycl.src.translators.matrix_of_cell_identifiers_token_translator import \
             MatrixOfCellIdentifiersTokenTranslator
 
-        left, right = token.operands
+        return cls._translate_operands(token.operands, token, excel, context)
 
+    @classmethod
+    def _translate_operands(cls, operands, token: MatrixOfCellIdentifiersExpressionToken, excel: Excel,
+                            context: Context) -> str:
+        from excel2pycl.src.translators.matrix_of_cell_identifiers_token_translator import \
+            MatrixOfCellIdentifiersTokenTranslator
+
+        # `operands` is a lone matrix token or a pair (matrix, operands of the rest): A&B&C is A&(B&C)
+        if not isinstance(operands, tuple):
+            return MatrixOfCellIdentifiersTokenTranslator.translate(operands, excel, context)
+
+        left, right = operands
         list1 = MatrixOfCellIdentifiersTokenTranslator.translate(left, excel, context)
-        list2 = MatrixOfCellIdentifiersTokenTranslator.translate(right, excel, context)
+        list2 = cls._translate_operands(right, token, excel, context)
 
         return context.set_sub_cell(
             token.in_cell, f'self._concat_arrays_values(self._flatten_list({list1}), self._flatten_list({list2}))'
